@@ -172,6 +172,7 @@ def spRead (w : W) : IO :=
   else if w.k.fdOpen then .usesOwnFd else .touchesForeignFd
 
 inductive LOp | isalive | wait | kill (sig : Nat) | terminate (force : Bool) | close (force : Bool) | childEnds
+  | read        -- read_nonblocking on the way to (or at) the end of the stream: it checks liveness, which records the status of a dead child
 deriving DecidableEq, Repr
 
 def stepOp (w : W) : LOp → W
@@ -184,6 +185,7 @@ def stepOp (w : W) : LOp → W
       if t.2.pp.terminated then copyStatus t.2 else t.2
   | .close force => (spClose w force).2
   | .childEnds => { w with k := finishPlan w.k }
+  | .read => if w.sp.closed then w else (spIsalive w).2      -- on a closed object the read is refused before anything is looked at
 
 /-! ### the invariant: what pexpect says about the child is the truth, and never changes once said -/
 
@@ -572,6 +574,17 @@ theorem stepOp_inv (w : W) (op : LOp) (hop : op.OK) (h : Inv w) : Inv (stepOp w 
     split
     · exact fdOk_of_sp w _ hf (by rw [(ppIsalive_fd w).1]) (by rw [(ppIsalive_fd w).1]) (ppIsalive_fd w).2
     · exact fdOk_of_sp w _ hf (by simp [copyStatus, (ppIsalive_fd w).1]) (by simp [copyStatus, (ppIsalive_fd w).1]) (by simp [copyStatus, (ppIsalive_fd w).2])
+  | read =>
+    unfold stepOp
+    simp only
+    split
+    · exact ⟨hc, hf⟩
+    · refine ⟨spIsalive_inv w hc, ?_⟩
+      unfold spIsalive
+      simp only
+      split
+      · exact fdOk_of_sp w _ hf (by rw [(ppIsalive_fd w).1]) (by rw [(ppIsalive_fd w).1]) (ppIsalive_fd w).2
+      · exact fdOk_of_sp w _ hf (by simp [copyStatus, (ppIsalive_fd w).1]) (by simp [copyStatus, (ppIsalive_fd w).1]) (by simp [copyStatus, (ppIsalive_fd w).2])
   | wait =>
     refine ⟨spWait_inv w hc, ?_⟩
     unfold stepOp spWait
@@ -678,6 +691,11 @@ theorem reaped_stays (w : W) (op : LOp) (f : Fate) (h : w.k.proc = .reaped f) : 
     · exact iso v hv
   cases op with
   | isalive => exact spi w h
+  | read =>
+    show (if w.sp.closed then w else (spIsalive w).2).k.proc = _
+    split
+    · exact h
+    · exact spi w h
   | wait =>
     show (spWait w).2.k.proc = _
     have e := iso w h
